@@ -204,7 +204,10 @@ def run_system(text, ops_seed, sched_kwargs, n_generators=1, faults=None, props=
                 world.embed_fault_at = None
                 for f in fl:
                     kind = f["kind"]
-                    stats["fault:" + kind] = stats.get("fault:" + kind, 0) + 1
+                    # close / abandon / throw take effect here; rng and embedding faults are only *armed* here and counted as
+                    # fired when they actually land inside the resumption
+                    pre = "fault:" if kind in ("gen_close", "gen_abandon", "gen_throw") else "fault_armed:"
+                    stats[pre + kind] = stats.get(pre + kind, 0) + 1
                     world.event({"k": "fault", "kind": kind, "g": gi, "after": t["yields"]})
                     if kind == "gen_close":
                         t["gen"].close()
@@ -283,7 +286,8 @@ def run_system(text, ops_seed, sched_kwargs, n_generators=1, faults=None, props=
                 except (InjectedRngError, InjectedInterrupt) as exc:
                     t["done"] = True
                     t["dead"] = "rng_fault"
-                    stats["fault_fired:rng"] = stats.get("fault_fired:rng", 0) + 1
+                    fk = "rng_interrupt" if isinstance(exc, InjectedInterrupt) else "rng_raise"
+                    stats["fault:" + fk] = stats.get("fault:" + fk, 0) + 1
                     world.event({"k": "op", "op": "raised", "g": gi, "exc": type(exc).__name__})
                     try:
                         next(t["gen"])
@@ -313,7 +317,7 @@ def run_system(text, ops_seed, sched_kwargs, n_generators=1, faults=None, props=
                     if embed_armed and any(e["k"] == "fault" and e["kind"] == "embed_fail" for e in world.log[-600:]):
                         # the injected embedding failure ended this resumption: the faulted call may raise, nothing else
                         world.embed_fault_at = None
-                        stats["fault_fired:embed_fail"] = stats.get("fault_fired:embed_fail", 0) + 1
+                        stats["fault:embed_fail"] = stats.get("fault:embed_fail", 0) + 1
                         t["dead"] = "embed_fault"
                         new_gen()
                         continue
